@@ -70,6 +70,9 @@ PARTIAL = ["std::vector arguments and results (c_vector_*, f_vector_*)", "contex
            "CFI_allocate results (c_*_result_cfi_allocatable)", "shadow (class instance) arguments beyond the this-argument position",
            "debug on/off (C16) is exercised by the oracle only"]
 
+# internal failures of Shroud on legal combinations, minimised and handed to C05 (corpus/c05.txt + known findings)
+HANDED_OVER = ["'{C_array_type} *{c_var_context}'", "'int {c_var_len}'", "'Scope' object has no attribute 'c_var'"]
+
 # ------------------------------------------------------------------ descriptions for the tie
 NATIVE = ["int", "long", "double", "float", "size_t", "short", "unsigned int", "int64_t"]
 
@@ -94,16 +97,27 @@ def _arg(r, i, cxx, have_arrays):
                   "std::string *%s +intent(inout)" % n, "const std::vector<int> &%s" % n, "std::vector<double> &%s +intent(out)" % n,
                   "std::vector<int> &%s +intent(inout)" % n, "std::vector<double> &%s +intent(out)+deref(allocatable)" % n,
                   "%s *&%s +intent(out)+dimension(4)" % (t, n), "Cls *%s" % n, "const Cls &%s" % n, "bool &%s +intent(out)" % n]
+    if NO_CONTEXT[0]:
+        # with F_CFI=true the context kinds only reproduce the open finding: keep them to a minority of descriptions
+        forms = [f for f in forms if "vector" not in f and "**" not in f and "*&" not in f]
     return r.choice(forms)
 
 
+NO_CONTEXT = [False]
+
+
 def _result(r, cxx):
-    forms = ["void", "void", "int", "double", "bool", "const char *", "const char * +len(30)", "const char * +deref(raw)",
-             "char", "int * +deref(pointer)+dimension(4)", "int * +deref(raw)", "int * +deref(allocatable)+dimension(4)",
-             "int * +deref(scalar)", "Color", "void *", "int * +dimension(3)+owner(caller)"]
+    forms = ["void", "void", "int", "double", "bool", "const char *", "const char * +len(30)",
+             "char", "int * +deref(pointer)+dimension(4)", "int * +deref(allocatable)+dimension(4)",
+             "Color", "void *", "int * +dimension(3)+owner(caller)", "int", "double", "const char *"]
+    if r.random() < 0.08:
+        # combinations handed to C05 (internal failures when the function also needs a bufferify clone): kept rare
+        forms = ["const char * +deref(raw)", "int * +deref(raw)", "int * +deref(scalar)"]
     if cxx:
         forms += ["const std::string", "const std::string &", "std::string +len(20)", "const std::string * +deref(allocatable)",
                   "std::vector<int>", "Cls *", "const std::string & +deref(result-as-arg)"[:0] or "int &"]
+    if NO_CONTEXT[0]:
+        forms = [f for f in forms if "vector" not in f and "dimension" not in f]
     x = r.choice(forms)
     return (x.split(" +")[0], ("+" + "+".join(x.split(" +")[1:])) if " +" in x else "")
 
@@ -113,6 +127,8 @@ FEATURES = []
 
 def gen_description(r, idx):
     cxx = r.random() < 0.7
+    want_cfi = r.random() < 0.35
+    NO_CONTEXT[0] = want_cfi and r.random() < 0.8
     decls = [{"decl": "enum Color { RED, GREEN = 5 }"},
              {"decl": "struct Pt { int x; double y; };"}]
     if cxx:
@@ -199,7 +215,7 @@ def gen_description(r, idx):
         decls.append({"decl": "void arstr(double *x +intent(in)+dimension(..), const char *label)", "options": {"F_assumed_rank_max": 2}})
         feats.append("assumed-rank*char")
     opts = {"wrap_python": False, "wrap_lua": False}
-    if r.random() < 0.35:
+    if want_cfi:
         opts["F_CFI"] = True
         feats = [f + "*F_CFI" for f in feats]
     FEATURES.append(feats)
@@ -273,6 +289,8 @@ def run(ctx):
             ncorpus_desc = len(descs)
             del FEATURES[:]
             accepted = set()
+            import collections as _c
+            rej_classes = _c.Counter()
             for i in range(160 if thorough else 60):
                 descs.append(gen_description(r, i))
             for i, (ytext, _cxx) in enumerate(descs):
@@ -281,12 +299,16 @@ def run(ctx):
                 if exc is not None or lib is None:
                     # configuration independence at generation time: the same description with F_CFI off
                     yd = yaml.safe_load(ytext)
-                    if (yd.get("options") or {}).get("F_CFI") and isinstance(exc, SystemExit):
+                    exc2_ok = False
+                    cfi_was = bool((yd.get("options") or {}).get("F_CFI"))
+                    if (yd.get("options") or {}).get("F_CFI") and isinstance(exc, (SystemExit, AttributeError, TypeError)):
                         yd["options"]["F_CFI"] = False
                         common.rmtree(d)
                         lib2, exc2, _ = c01_tie.run_shroud(yaml.safe_dump(yd, sort_keys=False), d)
                         ctx.count(1)
                         if exc2 is None and lib2 is not None:
+                            exc2_ok = True
+                        if exc2_ok and isinstance(exc, SystemExit):
                             import re as _re
                             tmpl = str(exc).replace("Error with template: ", "")
                             if _re.search(r"c_var_context|cxx_T|hnamefunc0|c_var_size|C_array_type", tmpl):
@@ -301,6 +323,15 @@ def run(ctx):
                                      {"yaml": ytext, "config": {"F_CFI": True, "language": yd.get("language")},
                                       "function": None, "values": None})
                     rejected += 1
+                    msg = "%s: %s" % (type(exc).__name__, exc)
+                    if any(k in msg for k in HANDED_OVER):
+                        rej_classes["internal failure on a legal combination (handed to C05: corpus/c05.txt, known findings gen:shroud:*)"] += 1
+                    elif exc2_ok:
+                        rej_classes["open finding c01:F_CFI-generation-fails (wrapped with F_CFI=false)"] += 1
+                    elif "Error with template" in msg and (yd.get("options") or {}).get("F_CFI") is False and cfi_was:
+                        rej_classes["open finding c01:F_CFI-generation-fails together with another failure"] += 1
+                    else:
+                        rej_classes["other: " + msg[:90]] += 1
                     if isinstance(exc, (AssertionError, KeyError, AttributeError, TypeError, IndexError)) and rejected <= 3:
                         ctx.sample({"generator_description_rejected": repr(exc)[:200], "yaml": ytext[:600]})
                     common.rmtree(d)
@@ -324,6 +355,7 @@ def run(ctx):
             import collections
             fc = collections.Counter(f for i_, fl in enumerate(FEATURES) if i_ in accepted for f in fl)
             ctx.note("feature_combinations_in_accepted_tie_descriptions", dict(sorted(fc.items())))
+            ctx.note("tie_descriptions_rejected_by_shroud", dict(rej_classes))
             tinfo.update({"generated_descriptions": n_desc, "generator_rejected": rejected, "corpus_configurations": ncorp})
             ctx.note("tie", tinfo)
             for b in bad[:4]:
